@@ -35,7 +35,7 @@ def run(R, ctx):
     twins(R, ctx)
     current_spared(R, ctx)
     shutdown_rules(R, ctx)
-
+    family_predicate_proxy(R, ctx, 'R07.7', 'the listing cleanup counts over recognises exactly the family (shared with R14.2)')
 
 def ord_rel(row, a, b):
     """relation of a to b recorded in the row for the ordering atom of names a, b (None if not examined)"""
